@@ -470,6 +470,11 @@ func c09UDPClient(c *Ctx, r *rand.Rand, res *Result) (sig, detail string) {
 		}
 		p := 1 + r.Intn(maxp)
 		pad1, pad2 := pick(r, 0, 0, 1, r.Intn(40)), pick(r, 0, 0, 1, r.Intn(40))
+		if !le && r.Intn(4) == 0 {
+			// another implementation configured with the largest MTU: datagrams up to 1500 bytes,
+			// whatever MTU this server was configured with for its own sending
+			p = 1500 - 88 - pad1 - pad2 - r.Intn(3)
+		}
 		m := refcodec.Meta{Type: typ, SessionID: sid, Seq: uint32(i + 1), Window: 4096}
 		if sg, d := sendReliable(m, mk(p), refcodec.BuildOpts{Pad1: refcodec.RandBytes(pad1), Pad2: refcodec.RandBytes(pad2), LE: leo}); sg != "" {
 			return sg, d
